@@ -7,13 +7,15 @@ CONSTANTS
   UseScan = "cls"
   AddRollback = TRUE
   NsEmptyQuals = TRUE
-  NsArgs = {0, 2, 3}
+  NsArgs = {0, 2}
   NsAdm = {0, 1, 2}
   QU = {1, 2}
   DU = {"d1", "d2"}
-  ClsU = {"U", "V"}
+  ClsU = {"U"}
   BadArgs = {"none"}
   MaxItems = 2
+  MaxCompile = 2
+  SameD = FALSE
   GenDepth = 0
 INVARIANT ImplRefinesReq
 INVARIANT ReqWellFormed
